@@ -69,7 +69,7 @@ func (d *c10Def) src(j int) string {
 	case dDeferFunc:
 		return fmt.Sprintf("func D%d(x int) (r int) { defer func() { r += %d }(); r = x * %d; return r }", j, d.b, d.a)
 	case dGlobalCounter:
-		return fmt.Sprintf("var gc%d = %d\nfunc Inc%d(d int) int { gc%d += d; return gc%d * %d }", j, d.b, j, j, j, d.a)
+		return fmt.Sprintf("var gc%d = %d\nfunc Inc%d(d int) int { gc%d += d; return gc%d * %d }\nfunc keep%d(v int) int { for i := 0; i < 1000000; i++ { host.Tick(7) }; return v }", j, d.b, j, j, j, d.a, j)
 	case dGlobalMap:
 		return fmt.Sprintf("var gm%d = map[int]int{0: %d}\nvar gs%d []int\nfunc Put%d(v int) int { gm%d[len(gm%d)] = v; gs%d = append(gs%d, v); return len(gm%d)*%d + len(gs%d) + gm%d[0] }", j, d.b, j, j, j, j, j, j, j, d.a, j, j)
 	case dLockedFunc:
@@ -188,10 +188,11 @@ const (
 	xGoroutines
 	xCallsDef
 	xSelect
+	xHostCall
 	nCancelKinds
 )
 
-var cancelKindName = [...]string{"busy-loop", "blocked-channel", "expired-context", "goroutines", "calls-definition", "blocked-select"}
+var cancelKindName = [...]string{"busy-loop", "blocked-channel", "expired-context", "goroutines", "calls-definition", "blocked-select", "blocked-host-call"}
 
 type c10Step struct {
 	Kind string // use-eval, use-ctx, use-host, cancel
@@ -416,6 +417,11 @@ func RunC10(t *testing.T, tape *Tape) *Outcome {
 					switch s.CK {
 					case xBusy:
 						src = "for { host.Tick(1) }"
+						if d.kind == dGlobalCounter {
+							// a long call whose result would be assigned to the definition's
+							// variable: cut short, it must leave the variable alone
+							src = fmt.Sprintf("gc%d = keep%d(gc%d)", s.Def, s.Def, s.Def)
+						}
 					case xBlocked:
 						src = "cc := make(chan int); <-cc"
 						if d.kind == dGlobalCounter {
@@ -462,6 +468,9 @@ func RunC10(t *testing.T, tape *Tape) *Outcome {
 						} else {
 							src = fmt.Sprintf("for { host.Tick(%s(1)) }", callee)
 						}
+					case xHostCall:
+						// a native call made by a top-level statement, which never returns
+						src = "host.Park()"
 					case xSelect:
 						src = "s1 := make(chan int); s2 := make(chan int); select { case <-s1: case s2 <- 1: }"
 					}
